@@ -183,7 +183,7 @@ theorem calculateOrder_vel_rev (var : Variant) (op : OP) (box0 : Option (List â„
       if op.velocityDependent then (calculateOrder var op false box0 xyz vel box).1.map negHead
       else (calculateOrder var op false box0 xyz vel box).1 := by
   have h := velocity_reversal_sign var op
-    { pos := xyz, vel := vel, box := match box with | some b => some b | none => box0 }
+    { pos := xyz, vel := vel, box := newBox box0 box }
   simpa [calculateOrder, calculate, reverseVel] using h
 
 example : (calculateOrder .asIs (.velocity 1 1) true none exSys.pos exSys.vel exSys.box).1 = .ok [-1] âˆ§
